@@ -61,6 +61,8 @@ class Spec:
     calls: dict[str, Callable[["Tr", ast.Call], str]] = field(default_factory=dict)
     skip_prefixes: tuple[str, ...] = ("warnings.",)
     rename: dict[str, str] = field(default_factory=dict)  # python local -> lean name
+    # `if <test>:` whose evaluation itself raises when <lean cond> holds: test text -> (lean cond, exception name)
+    raising_tests: dict[str, tuple[str, str]] = field(default_factory=dict)
 
 
 def find_function(tree: ast.Module, qualname: str) -> ast.FunctionDef:
@@ -275,7 +277,13 @@ class Tr:
                 return f"((if {self.e(st.test)} then\n{ind}  {a}\n{ind}else\n{ind}  {b}) ++\n{ind}{r})"
             a = self.block(list(st.body) + rest, depth + 1)
             b = self.block(list(st.orelse) + rest, depth + 1)
-            return f"(if {self.e(st.test)} then\n{ind}  {a}\n{ind}else\n{ind}  {b})"
+            core = f"(if {self.e(st.test)} then\n{ind}  {a}\n{ind}else\n{ind}  {b})"
+            if t in self.s.raising_tests:
+                cond, exc = self.s.raising_tests[t]
+                if self.s.kind != "except":
+                    raise Untranslatable(f"{self.s.qualname}: raising test in non-except function")
+                return f'(if {cond} then (Except.error "{exc}") else\n{ind}{core})'
+            return core
         if isinstance(st, ast.Assign) and len(st.targets) == 1 and isinstance(st.targets[0], ast.Name):
             nm = self.e_Name(st.targets[0])
             return f"let {nm} := {self.e(st.value)}\n{ind}{self.block(rest, depth)}"
